@@ -199,6 +199,42 @@ def nontrivial(case):
     return len(items) >= 2 and any(it[0] in (1, 2) for it in items)
 
 # ------------------------------------------------------------------ run
+UNEVAL = ("(x21756e6576616c", "(x217365747570")      # ("!uneval" ...  /  ("!setup" ...
+
+def eval_stream(ck, name, cases, run_fn, vh_cmd, ok_fn, timeout=1500, **kw):
+    """ck.stream for harness commands that have to wait for goroutines / sockets: the implementation is run
+    first; a case the harness could not evaluate (its generous bound was hit without any positive evidence of
+    damage: an unschedulable machine) is run once more and, if still unevaluated, left out and counted.
+    More than 10 % unevaluated cases fail the run."""
+    lines = [vlib.vs(c) for c in cases]
+    obs = vlib.run_vh(ck.prop, vh_cmd, lines, timeout=timeout)
+    if len(obs) != len(lines):
+        raise vlib.Broken("harness returned %d answers for %d cases on %s" % (len(obs), len(lines), name))
+    bad = [i for i, o in enumerate(obs) if o.startswith(UNEVAL)]
+    if bad:
+        again = vlib.run_vh(ck.prop, vh_cmd, [lines[i] for i in bad], timeout=timeout)
+        for i, o in zip(bad, again):
+            obs[i] = o
+    keep = [i for i, o in enumerate(obs) if not o.startswith(UNEVAL)]
+    un = ck.extra.setdefault("unevaluated_cases", {})
+    un[name] = "%d of %d" % (len(cases) - len(keep), len(cases))
+    if len(cases) - len(keep) > 0.1 * len(cases):
+        raise vlib.Broken("%s: %d of %d cases could not be evaluated" % (name, len(cases) - len(keep), len(cases)))
+    cache = os.path.join(vlib.BUILD, "cached_%s_%d_%s" % (ck.prop, os.getpid(), name))
+    with open(cache + ".out", "w") as f:
+        f.write("".join(obs[i] + "\n" for i in keep))
+    with open(cache + ".sh", "w") as f:
+        f.write("#!/bin/sh\ncat > /dev/null\ncat %s.out\n" % cache)
+    os.chmod(cache + ".sh", 0o755)
+    try:
+        return ck.stream(name, [cases[i] for i in keep], run_fn, vh_cmd, ok_fn, exe=cache + ".sh", timeout=timeout, **kw)
+    finally:
+        for ext in (".out", ".sh"):
+            try:
+                os.remove(cache + ext)
+            except OSError:
+                pass
+
 def with_wire(ck, plans):
     """attach x_C06_gen's bytes to every plan"""
     lines = [vlib.vs(p) for p in plans]
@@ -269,7 +305,7 @@ def run(ck):
         wf = vlib.run_driver(ck.prop, "C06_wf", [vlib.vs(p) for p in plans])
         ck.extra["loss_cases_inside_theorem_guard"] = "%d of %d" % (sum(1 for x in wf if x == "1"), len(wf))
         cases = with_wire(ck, plans)
-        ck.stream("loss", cases, "C06_run", "C06", "C06_ok", nontrivial=nontrivial,
+        eval_stream(ck, "loss", cases, "C06_run", "C06", "C06_ok", nontrivial=nontrivial,
                   sig=lambda c, e, o: "depack-loss-" + ("h264", "h265", "aac")[c[0][0]], sample=4)
         # rearrangements: reordering, duplication, late packets
         plans = []
@@ -280,7 +316,7 @@ def run(ck):
         wf = vlib.run_driver(ck.prop, "C06_wf", [vlib.vs(p) for p in plans])
         ck.extra["rearranged_cases_inside_theorem_guard"] = "%d of %d" % (sum(1 for x in wf if x == "1"), len(wf))
         cases = with_wire(ck, plans)
-        ck.stream("rearranged", cases, "C06_run", "C06", "C06_ok", nontrivial=nontrivial,
+        eval_stream(ck, "rearranged", cases, "C06_run", "C06", "C06_ok", nontrivial=nontrivial,
                   sig=lambda c, e, o: "depack-rearranged-" + ("h264", "h265", "aac")[c[0][0]], sample=2)
         # known finding, replayed every run: a sender report after media has started rebases the clock
         plans = []
@@ -295,7 +331,7 @@ def run(ck):
             plans.append(plan + [[0, [1] * sum(p[1] for p in pairs)]])
         plans.append([H264, 90000, 0, 1, [[0, 93600, 1, bytes([0x41, 1, 2])], [3, 2**31, 0, 0], [0, 97200, 1, bytes([0x41, 3, 4])]], [0, [1, 1, 1]]])
         cases = with_wire(ck, plans)
-        ck.stream("sr_late", cases, "C06_run", "C06", "C06_ok", nontrivial=nontrivial,
+        eval_stream(ck, "sr_late", cases, "C06_run", "C06", "C06_ok", nontrivial=nontrivial,
                   sig=lambda c, e, o: "pts-rebase-at-first-sr" if e == o else "sr-late-stream-other", sample=1)
         # D10 witness, replayed on the implementation every run: the RTP timestamp wraps inside the stream
         plans = []
@@ -311,7 +347,7 @@ def run(ck):
         # the fixed witness of pts_wrap_refuted
         plans.append([H264, 90000, 0, 7, [[0, 4294967040, 1, bytes([0x41, 1, 2])], [0, 4294967552, 1, bytes([0x41, 3, 4])]], [0, [1, 1]]])
         cases = with_wire(ck, plans)
-        ck.stream("ts_wrap", cases, "C06_run", "C06", "C06_ok", nontrivial=nontrivial,
+        eval_stream(ck, "ts_wrap", cases, "C06_run", "C06", "C06_ok", nontrivial=nontrivial,
                   sig=lambda c, e, o: "pts-ts-wrap" if e == o else "ts-wrap-stream-other", sample=1)
     except vlib.Broken as b:
         ck.broken.append(b)
